@@ -892,6 +892,9 @@ package ion
 //@ atcall-if-any[C13] (*binaryWriter).WriteInt val != nil && val.IsInt64() && a1 == val.Int64()
 //@ atcall-if-any[C13] (*binaryWriter).WriteUint val != nil && val.IsUint64() && a1 == val.Uint64()
 //@ atcall[C13] (*binaryWriter).writeBigInt a1 == val
+//@ counts (*binaryWriter).writeBigInt
+//@ counts (*binaryWriter).endValue
+//@ ensures[C12] err == nil && old(w.err) == nil ==> vcCalls("(*binaryWriter).writeBigInt") == 1 && vcCalls("(*binaryWriter).endValue") == 1
 //@ ensures[C12,C19] old(w.err) != nil ==> err == old(w.err) && w.err == old(w.err)
 //@ ensures[C12,C19] err != nil ==> w.err != nil
 
@@ -910,28 +913,46 @@ package ion
 //@ counts (*binaryWriter).resolveFromSymbolTable
 //@ atcall[C05] (*binaryWriter).writeSymbolFromID [id uint64] a2 == id && (val.Text == nil ==> val.LocalSID != SymbolIDUnknown && id == uint64(val.LocalSID))
 //@ atcall[C05,C11] (*binaryWriter).writeSymbolFromID val.Text != nil ==> vcCalls("(*binaryWriter).resolveFromSymbolTable") == 1
+//@ counts (*binaryWriter).writeSymbolFromID
+//@ ensures[C12] err == nil && old(w.err) == nil ==> vcCalls("(*binaryWriter).writeSymbolFromID") == 1
 //@ ensures[C12,C19] old(w.err) != nil ==> err == old(w.err) && w.err == old(w.err)
 //@ ensures[C12,C19] err != nil ==> w.err != nil
 
 //@ func (*binaryWriter).WriteSymbolFromString
+//@ split returns
 //@ modifies *
+//@ counts (*binaryWriter).writeSymbolFromID
+//@ ensures[C12] err == nil && old(w.err) == nil ==> vcCalls("(*binaryWriter).writeSymbolFromID") == 1
 //@ atcall[C05,C11] (*binaryWriter).resolve a2 == val
 //@ atcall[C05,C11] (*binaryWriter).writeSymbolFromID [id uint64] a2 == id
 //@ ensures[C12,C19] old(w.err) != nil ==> err == old(w.err) && w.err == old(w.err)
 //@ ensures[C12,C19] err != nil ==> w.err != nil
 
 //@ func (*binaryWriter).WriteString
+//@ split returns
 //@ modifies *
+//@ atcall[C01,C04,C12] (*binaryWriter).writeValue uint64(len(a2)) == uint64(len(val))+specTagLen(uint64(len(val))) && a2[0]&0xF0 == 0x80
+//@ atcall[C01,C12] (*binaryWriter).writeValue forall k int :: 0 <= k && k < len(val) ==> a2[int(specTagLen(uint64(len(val))))+k] == val[k]
 //@ ensures[C12,C19] old(w.err) != nil ==> err == old(w.err) && w.err == old(w.err)
 //@ ensures[C12,C19] err != nil ==> w.err != nil
 
 //@ func (*binaryWriter).WriteClob
+//@ split returns
 //@ modifies *
+//@ counts (*binaryWriter).writeLob
+//@ counts (*binaryWriter).endValue
+//@ ensures[C12] err == nil && old(w.err) == nil ==> vcCalls("(*binaryWriter).writeLob") == 1 && vcCalls("(*binaryWriter).endValue") == 1
+//@ atcall[C01,C12] (*binaryWriter).writeLob a1 == 0x90 && vcSameArray(a2, val) && len(a2) == len(val)
 //@ ensures[C12,C19] old(w.err) != nil ==> err == old(w.err) && w.err == old(w.err)
 //@ ensures[C12,C19] err != nil ==> w.err != nil
 
 //@ func (*binaryWriter).WriteBlob
+//@ split returns
 //@ modifies *
+//@ counts (*binaryWriter).writeLob
+//@ counts (*binaryWriter).endValue
+//@ ensures[C12] err == nil && old(w.err) == nil ==> vcCalls("(*binaryWriter).writeLob") == 1 && vcCalls("(*binaryWriter).endValue") == 1
+//@ atcall[C01,C12] (*binaryWriter).writeLob a1 == 0xA0 && vcSameArray(a2, val) && len(a2) == len(val)
 //@ ensures[C12,C19] old(w.err) != nil ==> err == old(w.err) && w.err == old(w.err)
 //@ ensures[C12,C19] err != nil ==> w.err != nil
 
@@ -1033,7 +1054,13 @@ package ion
 //@ ensures[C12,C19] err != nil ==> w.err != nil
 
 //@ func (*textWriter).WriteString
+//@ split returns
 //@ modifies *
+//@ counts writeRawChar
+//@ counts writeEscapedString
+//@ ensures[C12] err == nil && old(w.err) == nil ==> vcCalls("writeRawChar") == 2 && vcCalls("writeEscapedString") == 1
+//@ atcall[C01,C12] writeEscapedString a0 == val
+//@ atcall[C01,C12] writeRawChar a0 == 34
 //@ ensures[C12,C19] old(w.err) != nil ==> err == old(w.err) && w.err == old(w.err)
 //@ ensures[C12,C19] err != nil ==> w.err != nil
 
@@ -1043,7 +1070,10 @@ package ion
 //@ ensures[C12,C19] err != nil ==> w.err != nil
 
 //@ func (*textWriter).WriteBlob
+//@ split returns
 //@ modifies *
+//@ counts writeRawString
+//@ ensures[C12] err == nil && old(w.err) == nil ==> vcCalls("writeRawString") == 2
 //@ ensures[C12,C19] old(w.err) != nil ==> err == old(w.err) && w.err == old(w.err)
 //@ ensures[C12,C19] err != nil ==> w.err != nil
 
